@@ -6,7 +6,7 @@ dir=$(realpath "$1"); shift
 R=${THEO_REPO:-/repo}
 git -C $R diff --quiet || { echo "/repo has uncommitted changes, refusing"; exit 2; }
 git -C $R apply "$dir/patch.diff" || { echo "patch does not apply"; exit 2; }
-trap 'git -C $R checkout -- . ; rm -rf /verif/replays.mut' EXIT
+trap 'git -C $R checkout -- . ; rm -rf replays.mut' EXIT
 for p in "$@"; do
   tier=quick; case $p in *:thorough) tier=thorough; p=${p%%:*};; esac
   s=$(date +%s)
